@@ -180,7 +180,7 @@ theorem swapHead_time (l : Log) (i : Nat) (s : Seg) (rw : Rewrite) :
       simp
 
 /-- What `Log.delete` does to the state: nothing, a head swap or a reader swap. -/
-theorem delete_cases (l : Log) (offs : List Int) :
+theorem delete_shape_cases (l : Log) (offs : List Int) :
     (l.delete offs).1 = l ∨
     ∃ i s mv, l.segs[i]? = some s ∧
       ((l.delete offs).1 = swapHead l i s (rewrite l.opts.params s offs mv mv) ∨
@@ -205,7 +205,7 @@ theorem delete_cases (l : Log) (offs : List Int) :
             · exact Or.inr ⟨i, s, mv, hs, Or.inr rfl⟩
 
 theorem delete_opts (l : Log) (offs : List Int) : (l.delete offs).1.opts = l.opts := by
-  rcases delete_cases l offs with h | ⟨i, s, mv, _, h | h⟩
+  rcases delete_shape_cases l offs with h | ⟨i, s, mv, _, h | h⟩
   · rw [h]
   · rw [h]; exact swapHead_opts _ _ _ _
   · rw [h]; exact (swapReader_facts _ _ _).1
@@ -221,7 +221,7 @@ theorem delete_forall (Q : Seg → Prop) (l : Log) (offs : List Int)
         l.wNextTime).1) :
     ∀ s' ∈ (l.delete offs).1.segs, Q s' := by
   intro s' hs'
-  rcases delete_cases l offs with h | ⟨i, s, mv, hs, h | h⟩
+  rcases delete_shape_cases l offs with h | ⟨i, s, mv, hs, h | h⟩
   · rw [h] at hs'; exact hQ s' hs'
   · rw [h] at hs'
     have hmem : s ∈ l.segs := List.mem_of_getElem? hs
@@ -245,7 +245,7 @@ theorem delete_time (l : Log) (offs : List Int) :
           l.wNextTime).2.2 ∧
       (openWriter l.opts (rewrittenSeg l.opts.params (rewrite l.opts.params s offs mv mv))
           l.wNextTime).1 ∈ (l.delete offs).1.segs := by
-  rcases delete_cases l offs with h | ⟨i, s, mv, hs, h | h⟩
+  rcases delete_shape_cases l offs with h | ⟨i, s, mv, hs, h | h⟩
   · rw [h]; exact Or.inl rfl
   · rw [h]
     rcases swapHead_time l i s (rewrite l.opts.params s offs mv mv) with h1 | ⟨hne, h1, h2⟩
